@@ -537,15 +537,19 @@ def r_traj(ctx, a):
             ctx.oracle_close('a horizontally and vertically uniform tracer stays uniform', q, qi, scale=q0, tol_rel=1e-11)
         if has_time:
             times = [(float(dict(_leaves(sts[0]))['sim_time']), n0 + k), (float(L['sim_time']), n0 + k + 1)] if lf else [(float(L['sim_time']), n0 + k)]
-            for tk, n in times:
+            for j_, (tk, n) in enumerate(times):
                 want = n * dt
-                if fix and float(n0) != int(n0):
+                touched = (not lf) or j_ == len(times) - 1      # leapfrog: the clean-up acts on the future snapshot only;
+                                                                 # the Robert-Asselin-filtered current one is exact to rounding
+                if fix and not touched and float(n0) != int(n0):
+                    continue                                     # built from snapped snapshots: no fixed expected value
+                if fix and touched and float(n0) != int(n0):
                     # clock not on the dt lattice: the clean-up snaps to a neighbouring lattice point
                     ctx.oracle('maybe_fix_sim_time_roundoff returns a multiple of dt next to the unrounded time',
                                tk == dt * round(tk / dt) and abs(tk - want) <= 0.5 * abs(dt) * (1 + 1e-9), {'k': k, 'sim_time': tk, 'unrounded': want})
                     continue
                 ctx.oracle_close('sim_time advances by the step size per step', [tk], [want], scale=max(abs(want), k * abs(dt)), tol_rel=1e-11)
-                if fix:
+                if fix and touched:
                     ctx.oracle('with maybe_fix_sim_time_roundoff as last filter sim_time is exactly (n0 + k) * dt',
                                tk == dt * float(n), {'k': k, 'n0': n0, 'sim_time': tk, 'want': dt * float(n)})
 
